@@ -26,6 +26,12 @@ def unescape(value: str, token: TokenT) -> str:
 def _decode_escape_sequence(  # noqa: PLR0911
     value: str, index: int, token: TokenT
 ) -> tuple[str, int]:
+    if index >= len(value):
+        raise LiquidSyntaxError(
+            f"incomplete escape sequence at index {token.start + index - 1}",
+            token=token,
+        )
+
     ch = value[index]
     if ch == '"':
         return '"', index
